@@ -49,6 +49,18 @@ CLAIMED = {
    technique="bounded-exhaustive enumeration of error names x parameter documents through the real ReplyError -> wire -> Connection.Call path under the controlled scheduler, against an independent name classifier and raw-JSON equality",
    text="All dot-joined error names of <=4 (thorough <=5) tokens over 7 tokens (incl. empty, the reserved namespace's parts and a non-ASCII token) plus near-misses of org.varlink.service, each with 5 parameter documents, are sent by a handler and received by the library client: sendable names arrive as *varlink.Error with exactly that name, raw-JSON-equal parameters (numbers compared as text) and exactly one frame on the wire; unsendable names are refused with nothing written (the handler's fallback reply is the only frame). The four typed helpers x 4 argument strings arrive as their typed errors with the exact string. A scripted raw server checks the client mapping alone.",
    note="Names with an empty last part are counted as unspecified. Alphabets, not all strings / all JSON."),
+ "C02": dict(engine=A, design="§3 C02",
+   technique="bounded-exhaustive enumeration of adversarial parameter values (emission) and of message sequences x segmentations (reception), executed on the real code under the controlled scheduler; frame validity judged by an independent JSON recogniser",
+   text="Emission: ~120 values (strings with NUL, quotes, each C0 control, non-BMP and invalid UTF-8, also as object keys; nesting to 2000; strings/arrays at 4095/4096/4097/65535/65536 bytes and 1 MiB (thorough 4-8 MiB); big integers; unencodable values) travel as call parameter, reply, continues-reply, error parameter and inside a built-in error; the bytes captured in both directions must be a sequence of (syntactically valid JSON object, NUL) with no NUL inside and one write per frame. Reception: sequences of <=2 (thorough <=3) messages of 60/4095/4096/4097/70000 bytes towards the service and towards the client under no cut, every single cut (all offsets for short streams; frame boundaries +-2 and multiples of 4096 +-1 otherwise), cut pairs and byte-by-byte; the recovered message sequence equals the sent one for every segmentation.",
+   note="Value and size alphabets, not all JSON; the JSON recogniser is hand-written (RFC 8259) so that encoding/json is not its own judge."),
+ "C03": dict(engine=A, design="§3 C03",
+   technique="bounded-exhaustive enumeration of JSON documents and more-sequence lengths through the real client and service under the controlled scheduler, compared token-wise (numbers as text)",
+   text="All objects with <=2 members over 3 keys (incl. non-ASCII and empty) and values of depth <=1 (thorough <=2) over 15 leaves incl. -0, 2^53+1, 2^64, 1E+2, 1e-7, strings with NUL and non-BMP characters, {} and [] (quick ~11k, thorough ~170k documents) are sent as raw JSON via Call and Send+receive; the handler's GetParameters view and the client's received reply must be raw-JSON-equal to the document; every more-sequence of length 0..3 over 4 documents must arrive in order with continues set on all but the last; typed Go values with int64/uint64/float extremes round-trip.",
+   note="This stage uses the controlled in-memory transport; unix/abstract/tcp/bridge transports are covered by a separate transport stage with a smaller alphabet (see DESIGN.md)."),
+ "C11": dict(engine=A, design="§3 C11",
+   technique="bounded-exhaustive enumeration of server reply streams with fault enumeration (server death at every byte offset, two ways) on the real Connection under the controlled scheduler, against an independent reply classifier",
+   text="Reply streams of <=2 frames over 19 frame kinds are served by a scripted raw server that closes or resets after every byte offset, and the complete stream is delivered under every single cut; the client uses Send+receive (one more receive than frames), Call and Upgrade. Every receive must return exactly the next complete frame's parameters and continues flag, an error for frames that are not JSON objects of the reply's shape (null = empty reply), the remote error (typed for org.varlink.service errors), io.ErrUnexpectedEOF when the stream ends before the NUL, and never success for an incomplete frame; all 16 flag words: forbidden combinations write nothing, others put exactly the requested flags on the wire.",
+   note="After a reset an earlier complete frame may be lost (any error accepted); {\"error\":\"\"} is unspecified; ~48k (stream, offset, mode, api) cases in quick."),
 }
 
 NOT_YET = "check not built yet (work in progress; see DESIGN.md for the plan)"
